@@ -840,6 +840,17 @@ def closep(R):
             continue
         main.append((r, v, vn))
     need(main, 'build_close_payload: no computed payload')
+    # the text reason is encoded leniently: close() must not fail with UnicodeEncodeError (a lone surrogate in the reason)
+    # after which no Close frame is written and the websocket stays open for further sends
+    encs = [c for n in g.live_nodes() for c in n.calls if isinstance(c.func, ast.Attribute) and c.func.attr == 'encode']
+    for c in encs:
+        errs = [k.value for k in c.keywords if k.arg == 'errors'] + list(c.args[1:2])
+        lenient = any(isinstance(e_, ast.Constant) and e_.value in ('replace', 'ignore', 'backslashreplace', 'surrogatepass',
+                                                                    'surrogateescape', 'xmlcharrefreplace') for e_ in errs)
+        R.ob('C03.close', 'the reason text is encoded without the possibility of failure', lenient,
+             '`%s` can raise UnicodeEncodeError (lone surrogates): close(code, reason) then raises something that is not '
+             'ValueError / TypeError, writes no Close frame and leaves the websocket open' % U(c)[:60], func=f, node=c,
+             construct='close reason encoding')
     for (r, v, vn) in main:
         ok = isinstance(v, ast.BinOp) and isinstance(v.op, ast.Add) and isinstance(v.left, ast.Call) \
             and (struct_format(R, g.ctx, v.left) or ('', ''))[1] == '!H' and U(v.left.args[0]) == status \
